@@ -335,6 +335,16 @@ where
             }
         }
     }
+    // user formats that spell the time of day in other ways than %H:%M:%S (whole seconds)
+    for f in ["%Y-%m-%d %X", "%Y-%m-%d %T", "%Y-%m-%d %r", "%Y-%m-%d %k:%M:%S", "%Y-%m-%d %-H:%M:%S", "%Y-%m-%d %I:%M:%S %p", "%Y-%m-%dT%H:%M:%S", "%d %b %Y %R:%S", "%Y-%j %H:%M:%S"] {
+        let t = DateTime::<U>::new(whole);
+        let text = t.strftime(Some(f));
+        match DateTime::<U>::parse(&text, Some(f)) {
+            Ok(back) if back.0 == whole => {},
+            Ok(back) => return fail(format!("roundtrip:user-format:{}:value", f), format!("{:?} formatted with {:?} parsed back to {} instead of {} ({:?})", text, f, back.0, whole, U::unit())),
+            Err(e) => return fail(format!("roundtrip:user-format:{}:rejected", f), format!("{:?} formatted with {:?} is rejected with the same format: {}", text, f, e)),
+        }
+    }
     obs.set_nontrivial(c.sub_ns % 1_000_000 != 0 || y < 1970);
     obs.class_if(y < 1970, "pre_1970");
     obs.class_if(y < 1000, "year<1000");
